@@ -224,14 +224,17 @@ Fixpoint pop_active (fuel : nat) (active : list bool) (h : list hitem) : option 
 Definition lt_opt (nd : Z) (o : option Z) : bool :=
   match o with None => true | Some x => nd <? x end.
 
-(* vectorised relaxation (graph.py:706-711): `who` is computed against the
+(* vectorised relaxation (graph.py, dijkstra): `who` is computed against the
    distances before any update of this round; all selected entries are pushed;
-   dist[l[who]] = newdist[who] is a fancy assignment - for a repeated index the
-   LAST selected entry wins, whatever its value. *)
+   np.minimum.at(dist, l[who], newdist[who]) lowers each target to the smallest
+   selected candidate (unbuffered: a repeated index - parallel edges - is
+   handled entry by entry). *)
+Definition min_opt (nd : Z) (o : option Z) : Z :=
+  match o with None => nd | Some x => Z.min x nd end.
 Definition relax (dist : dist_t) (dwin : Z) (row : list (nat * Z)) : dist_t * list hitem :=
   let cand := map (fun p => (fst p, dwin + snd p)) row in
   let sel := filter (fun p => lt_opt (snd p) (getd dist (fst p))) cand in
-  (fold_left (fun D p => set_nth D (fst p) (Some (snd p))) sel dist,
+  (fold_left (fun D p => set_nth D (fst p) (Some (min_opt (snd p) (getd D (fst p))))) sel dist,
    map (fun p => (snd p, fst p)) sel).
 
 Fixpoint dij_loop (fuel : nat) (adj : list (list (nat * Z))) (dist : dist_t)
@@ -309,9 +312,8 @@ Fixpoint cc_loop (vs : list nat) (V : nat) (E : list edge) (lab : list Z) (k : Z
   end.
 Definition cc_model (V : nat) (E : list edge) : list Z := cc_loop (seq 0 V) V E (repeat (-1) V) 0.
 
-(* kruskal (graph.py:1025-1062) as written: `iw` = np.argsort(weights)
-   (oracle), label merging, V-k rounds, 2V-2 preallocated rows of which only
-   2(V-k) are filled - the rest stay (0,0) with weight 0. *)
+(* kruskal (graph.py) as written: `iw` = np.argsort(weights) (oracle), label
+   merging, V-k rounds, 2(V-k) rows (each accepted edge in both orientations). *)
 Fixpoint kr_advance (fuel : nat) (E : list edge) (iw : list nat) (lab : list Z) (j : nat) : nat :=
   match fuel with
   | O => j
@@ -331,8 +333,7 @@ Fixpoint kr_loop (rounds : nat) (E : list edge) (iw : list nat) (lab : list Z) (
       kr_loop r E iw lab' j' (acc ++ [e; erev e])
   end.
 Definition kruskal_model (V : nat) (E : list edge) (iw : list nat) (k : nat) : list edge :=
-  let filled := kr_loop (V - k) E iw (map Z.of_nat (seq 0 V)) O [] in
-  filled ++ repeat (O, O, 0) (2 * V - 2 - length filled).
+  kr_loop (V - k) E iw (map Z.of_nat (seq 0 V)) O [].
 
 (* ------------------------------------------------------------------ *)
 (* Part E: helpers for the correspondence terms written by the harness  *)
@@ -370,23 +371,28 @@ Definition compact_flat (V : nat) (E : list edge) (order : list nat) : list (lis
 (* ------------------------------------------------------------------ *)
 (* Part D: builders                                                     *)
 
-(* knn (graph.py:336-382) on the matrix D of squared distances (integers; the
-   code compares sqrt of the same values, sqrt is monotone).  Output: 0/1
-   pattern of the returned adjacency matrix. *)
+(* knn (graph.py) on the matrix D of squared distances (integers; the code
+   compares sqrt of the same values, sqrt is monotone).  dist = max(dist, 1e-16)
+   is modelled by kfloor x = max (2x, 1): order preserving, zero becomes the
+   smallest positive value.  Neighbour rule: dist <= sorted_dist[k] (row 0 of
+   the column-sorted matrix is the sample itself), everything when k >= n-1;
+   symmetrised; diagonal removed.  Output: 0/1 pattern of the adjacency matrix. *)
 Fixpoint zinsert (x : Z) (l : list Z) : list Z :=
   match l with [] => [x] | y :: t => if x <=? y then x :: l else y :: zinsert x t end.
 Definition zsort (l : list Z) : list Z := fold_right zinsert [] l.
 Definition mget (D : list (list Z)) (i j : nat) : Z := nth j (nth i D []) 0.
 Definition col (D : list (list Z)) (j : nat) : list Z := map (fun r => nth j r 0) D.
+Definition kfloor (x : Z) : Z := Z.max (2 * x) 1.
 Definition knn_bool (D : list (list Z)) (k i j : nat) : bool :=
   let n := length D in
   let k' := Nat.min k (n - 1) in
-  if (k' + 1 <? n)%nat then mget D i j <? nth (k' + 1) (zsort (col D j)) 0 else true.
+  if (k' + 1 <? n)%nat
+  then kfloor (mget D i j) <=? nth k' (zsort (map kfloor (col D j))) 0
+  else true.
 Definition knn_model (D : list (list Z)) (k : nat) : list (list Z) :=
   let n := length D in
   map (fun i => map (fun j =>
-     if negb (Nat.eqb i j) && (knn_bool D k i j || knn_bool D k j i) && (0 <? mget D i j)
-     then 1 else 0) (seq 0 n)) (seq 0 n).
+     if negb (Nat.eqb i j) && (knn_bool D k i j || knn_bool D k j i) then 1 else 0) (seq 0 n)) (seq 0 n).
 Definition row_degree (r : list Z) : nat := length (filter (fun x => negb (x =? 0)) r).
 
 (* graph_3d_grid (graph.py:449-512): the 13 hashing directions.  A row
@@ -428,9 +434,3 @@ Definition grid_hash_ok (m : Z) (pts : list (list Z)) : bool :=
                       Bool.eqb (ghash m r d =? l) (z3_eqb d dir) &&
                       negb ((0 <? ghash m r d) && (ghash m r d <? l)) &&
                       Bool.eqb (ghash m r d =? 0) (z3_eqb d (0,0,0))) grid_rows) pts) pts.
-
-(* dijkstra / floyd / voronoi_labelling as callable: with E = 0 the attribute
-   self.edges is the Python list [] and compact_neighb's self.edges[:, 0]
-   raises TypeError; None models the exception. *)
-Definition dijkstra_code (V : nat) (E : list edge) (order seeds : list nat) : option dist_t :=
-  match E with [] => None | _ => Some (dijkstra_model V E order seeds) end.
